@@ -576,9 +576,10 @@ fn dump_body<'tcx>(tcx: TyCtxt<'tcx>, def: LocalDefId) -> Option<J> {
         DefKind::SyntheticCoroutineBody => "coroutine",
         _ => return None,
     };
-    let (body_steal, _) = tcx.mir_promoted(def);
+    let (body_steal, promoted_steal) = tcx.mir_promoted(def);
     let body = body_steal.borrow();
     let body: &Body<'tcx> = &body;
+    let promoted = promoted_steal.borrow();
     let env = TypingEnv::post_analysis(tcx, def.to_def_id());
     let cx = Cx { tcx, body, def, env };
     let _ = cx.def;
@@ -624,6 +625,15 @@ fn dump_body<'tcx>(tcx: TyCtxt<'tcx>, def: LocalDefId) -> Option<J> {
     o.push(("vars", J::Arr(dbg)));
     let blocks: Vec<J> = body.basic_blocks.iter().map(|bb| cx.block(bb)).collect();
     o.push(("blocks", J::Arr(blocks)));
+    // promoted constants (`&CONST`, `&[..]`): small bodies, needed to read constant arguments
+    let proms: Vec<J> = promoted
+        .iter()
+        .map(|pb| {
+            let pcx = Cx { tcx, body: pb, def, env };
+            J::Arr(pb.basic_blocks.iter().map(|bb| pcx.block(bb)).collect())
+        })
+        .collect();
+    o.push(("promoted", J::Arr(proms)));
     Some(J::Obj(o))
 }
 
